@@ -52,7 +52,8 @@ def case_single(draw, tier):
     case = draw(case_full(tier))
     N = case["N"]
     case["by"] = draw(st.sampled_from(["L", "fres"]))
-    case["L"] = draw(st.one_of(st.integers(1, N), st.sampled_from([1, 2, N, max(1, N // 2)])))
+    case["L"] = draw(st.one_of(st.integers(1, N), st.sampled_from([1, 2, N, max(1, N // 2)]),
+                               st.sampled_from([64, 128, 256, 512, 1024, 2048]).map(lambda v: min(v, N))))
     case["fbin"] = draw(st.one_of(st.sampled_from([0.0, 0.5, 0.25]), st.floats(0.0, 0.5), st.floats(0.0, 0.5),
                                   st.floats(0.5, 1.9), st.sampled_from([0.625, 0.75, 1.0, 1.5])))   # above Nyquist: admissible (warning only)
     if case["by"] == "fres":
